@@ -67,10 +67,49 @@ func runUpdatePair(p *capgen.UpdatePair, eng host.Engine) (string, string, error
 	return "accepted", "", nil
 }
 
+// fk3Repro: removing the inherited interface from an interface declaration is
+// accepted although a stored value then stops conforming to the inherited interface.
+func fk3Repro() bool {
+	v1 := `access(all) contract C {
+    access(all) struct interface I1 {}
+    access(all) struct interface I2: I1 {}
+    access(all) struct S: I2 { init() {} }
+    access(all) struct S1: I1 { init() {} }
+    access(all) let x: {I1}
+    init() { self.x = S() }
+}`
+	v2 := `access(all) contract C {
+    access(all) struct interface I1 {}
+    access(all) struct interface I2 {}
+    access(all) struct S: I2 { init() {} }
+    access(all) struct S1: I1 { init() {} }
+    access(all) let x: {I1}
+    access(all) fun ok(): Bool { return self.x.isInstance(Type<{I1}>()) }
+    init() { self.x = S1() }
+}`
+	h := host.New()
+	if r := h.Deploy(host.Addr(1), "C", v1, host.Interp); r.Err != nil {
+		return false
+	}
+	if r := h.Update(host.Addr(1), "C", v2, host.Interp); r.Err != nil {
+		return false // rejected: fixed
+	}
+	r := h.Script("import C from 0x1\naccess(all) fun main(): Bool { return C.ok() }", nil, host.Options{Engine: host.Interp})
+	return r.Err != nil || r.Panic != nil || r.Value.String() != "true"
+}
+
 func TestC27(t *testing.T) {
 	rec := evid.Start(t, "C27", ruleC27)
+	fk3 := rec.Known("FK3")
+	if fk3 {
+		rec.ReportKnown("FK3", fk3Repro())
+	}
 	rapid.Check(t, func(rt *rapid.T) {
 		p := capgen.GenUpdatePair(rapidChooser{rt})
+		if fk3 && p.IfaceInheritanceLost {
+			rec.Excluded("FK3")
+			return
+		}
 		verdicts := map[host.Engine]string{}
 		for _, eng := range host.Engines {
 			verdict, problem, err := runUpdatePair(p, eng)
